@@ -28,6 +28,7 @@ EXPECTED = [
 
 def build(S, tier, seed):
     S.verify(restore.ScopeMatch())
+    restore.restore_one_vc(S)
     restore.parse_part_vc(S)
     restore.pipeline_vc(S)
     restore.sort_vc(S)
